@@ -364,6 +364,9 @@ func c11Classify(rule string, evid int, rerr error) (shape, n, sinkIn int) {
 }
 
 func c11Run(payload string) string {
+	if s := concSkip(); s != "" {
+		return s
+	}
 	c := c11ParseCfg(payload)
 	echo := &c11Digest{}
 	c11Mu.Lock()
@@ -501,7 +504,7 @@ func c11Run(payload string) string {
 		if p := atomic.LoadInt64(&progress); p != last {
 			last, lastAt = p, time.Now()
 		} else if time.Since(lastAt) > 30*time.Second {
-			return "HANG " + c13StuckFrames()
+			return concStuck()
 		}
 	}
 
